@@ -52,7 +52,7 @@ def concretize(hist, stype, scen):
     return {"scen": scen, "sock": stype, "ops": ops}
 
 
-IGNORED = {"TraceDelivery": {"peer_part", "attach_call", "attach_pending", "wire", "released", "recv_call", "recv_pending", "recv_dropped", "send_call",
+IGNORED = {"TraceDelivery": {"observed", "peer_part", "attach_call", "attach_pending", "wire", "released", "recv_call", "recv_pending", "recv_dropped", "send_call",
                              "send_ret", "send_pending", "send_dropped", "sub_call", "sub_ret", "sub_pending", "sub_dropped", "pipe", "end"}}
 
 
